@@ -19,7 +19,7 @@ import (
 // and absent.
 
 func init() {
-	fw.Register(&fw.Check{ID: "C32", Level: "exploration", Run: runC32, QuickBudget: 90, ThoroughBudget: 1200})
+	fw.Register(&fw.Check{ID: "C32", Level: "exploration", Run: runC32, QuickBudget: 150, ThoroughBudget: 1200})
 }
 
 var (
